@@ -11,11 +11,59 @@ type RecAttrs struct {
 	// SeqLens, when non-nil, holds the number of valid steps per batch entry (ONNX sequence_lens): beyond it the
 	// entry's state is carried unchanged and its rows of Y are zero
 	SeqLens []int
+	// ActAlpha / ActBeta: activation_alpha / activation_beta, entry i for activation i (nil or short = ONNX defaults)
+	ActAlpha, ActBeta []float64
 	// Reverse: direction="reverse": the steps are processed from the last to the first; Y keeps the time positions of
 	// X, Y_h is the state after the step at time 0 (not combined with SeqLens here)
 	Reverse bool
 	// variants for the discrimination self-check
 	Variant string // "", "gate-order", "bias-slots", "peephole-slots"
+}
+
+// actFnP: activations with parameters (ONNX defaults when alpha / beta are NaN).
+func actFnP(name string, alpha, beta float64) (func(float64) float64, bool) {
+	def := func(v, d float64) float64 {
+		if math.IsNaN(v) {
+			return d
+		}
+		return v
+	}
+	switch name {
+	case "hardsigmoid", "HardSigmoid":
+		a, b := def(alpha, 0.2), def(beta, 0.5)
+		return func(x float64) float64 { return math.Max(0, math.Min(1, a*x+b)) }, true
+	case "leakyrelu", "LeakyRelu":
+		a := def(alpha, 0.01)
+		return func(x float64) float64 {
+			if x >= 0 {
+				return x
+			}
+			return a * x
+		}, true
+	case "elu", "Elu":
+		a := def(alpha, 1)
+		return func(x float64) float64 {
+			if x >= 0 {
+				return x
+			}
+			return a * (math.Exp(x) - 1)
+		}, true
+	case "thresholdedrelu", "ThresholdedRelu":
+		a := def(alpha, 1)
+		return func(x float64) float64 {
+			if x > a {
+				return x
+			}
+			return 0
+		}, true
+	case "scaledtanh", "ScaledTanh":
+		a, b := def(alpha, 1), def(beta, 1)
+		return func(x float64) float64 { return a * math.Tanh(b*x) }, true
+	case "affine", "Affine":
+		a, b := def(alpha, 1), def(beta, 0)
+		return func(x float64) float64 { return a*x + b }, true
+	}
+	return actFn(name)
 }
 
 func actFn(name string) (func(float64) float64, bool) {
@@ -115,7 +163,14 @@ func Recurrent(op string, X, W, R, B, h0, c0, P *T, a RecAttrs) ([]*T, error) {
 	}
 	fs := make([]func(float64) float64, len(acts))
 	for i, n := range acts {
-		f, ok := actFn(n)
+		al, be := math.NaN(), math.NaN()
+		if i < len(a.ActAlpha) {
+			al = a.ActAlpha[i]
+		}
+		if i < len(a.ActBeta) {
+			be = a.ActBeta[i]
+		}
+		f, ok := actFnP(n, al, be)
 		if !ok {
 			return nil, Invalid("activation %q", n)
 		}
